@@ -31,6 +31,21 @@ func nonNegative(v ssa.Value, seen map[ssa.Value]bool, at *ssa.BasicBlock) bool 
 			case "unicode/utf8.RuneCountInString", "unicode/utf8.RuneCount", "strings.Count", "bytes.Count":
 				return true
 			}
+			// a maximum with a non-negative value: MaxInt(0, n)
+			if callee.Name() == "MaxInt" || callee.Name() == "Max" {
+				for _, a := range x.Call.Args {
+					if k, ok := core.ConstInt(a); ok && k >= 0 {
+						return true
+					}
+				}
+			}
+		}
+		if b, ok := x.Call.Value.(*ssa.Builtin); ok && b.Name() == "max" {
+			for _, a := range x.Call.Args {
+				if k, ok := core.ConstInt(a); ok && k >= 0 {
+					return true
+				}
+			}
 		}
 	case *ssa.Phi:
 		for _, e := range x.Edges {
